@@ -194,12 +194,22 @@ def check_neq(ctx, objs):
         ctx.violation(what, rp)
 
 
+def big_objects():
+    nb = 400
+    big2 = [1] + J.enc_names(["v%d" % i for i in range(nb)]) + [f2b(1.5)] + [f2b(float(i % 7) - 3.0) for i in range(nb)] + \
+           [f2b(0.25 if (i // nb + i % nb) % 97 == 0 else 0.0) for i in range(nb * nb)]
+    big1 = [0] + J.enc_names(["w%d" % i for i in range(3000)]) + [f2b(-2.5)] + [f2b(float(i % 5)) for i in range(3000)]
+    return [big2, big1]
+
+
 def check_pk(ctx, objs):
     """(d) the pickle protocol of the Python-visible classes (the *_py.rs pickling blocks), through the interpreter:
     __getstate__ returns the bincode of the object, type(obj)(*obj.__getnewargs__()) constructs, __setstate__ restores;
     the rebuilt object equals the original and answers every query identically"""
     # PPSplineF64 / PPSplineDual / PPSplineDual2 define no pickling methods in rust/splines/spline_py.rs (kinds 7-9)
     objs = [o for o in objs if o[0] <= 6]
+    # LARGE objects: a Dual with 3 000 variables and a Dual2 with 400 (a binary state of 1.3 MB): size must not matter
+    objs = objs + big_objects()
     lines = ["pk " + " ".join(map(str, o)) for o in objs]
     impl = run_harness("json", lines)
     groups = {}
@@ -226,7 +236,8 @@ def check_pk(ctx, objs):
         else:
             key = (ty, "pickle-abort")
             what = "pickling a %s ABORTS" % ty
-        rp = {"part": "pk", "class": key[1], "type": ty, "object": o, "flags": a[:8], "harness_cmd": harness_cmd(ln)[:6000]}
+        rp = {"part": "pk", "class": key[1], "type": ty, "object": o if len(o) < 20000 else o[:50], "object_size": len(o),
+              "flags": a[:8], "harness_cmd": harness_cmd(ln)[:6000]}
         ctx.count("pk finding: %s/%s" % key)
         if key not in groups or len(o) < groups[key][0]:
             groups[key] = (len(o), what, rp)
@@ -362,7 +373,10 @@ def replay(ctx, rp):
         print("replay equality of a %s against a copy with %s: outcome %s, original == copy %s, copy == original %s, original == original %s" % (
             rp.get("type"), rp.get("change"), a[:1], a[1:2], a[2:3], a[3:4]))
     elif part == "pk":
-        a = run_harness("json", ["pk " + " ".join(map(str, rp["object"]))])[0]
+        o = rp["object"]
+        if rp.get("object_size", 0) >= 20000:
+            o = [b for b in big_objects() if len(b) == rp["object_size"]][0]
+        a = run_harness("json", ["pk " + " ".join(map(str, o))])[0]
         bad = not (a[0] == 0 and a[1:4] == [1, 1, 1])
         print("replay pickle protocol of a %s: outcome %s flags %s" % (rp.get("type"), a[:1], a[1:4]))
     elif part == "enc":
